@@ -10,10 +10,12 @@ where
             .into_iter()
             .filter_map(
                 |(key, value)| match runner.run_key_value(ctx, &key, &value) {
-                    Ok(v) => v
-                        .as_boolean()
-                        .expect("compiler guarantees boolean return type")
-                        .then_some(Ok((key, value))),
+                    // The compiler checks the closure's return type, but a value read from the
+                    // target can still differ at runtime (e.g. a target that rejected the read).
+                    Ok(v) => match v.try_boolean() {
+                        Ok(keep) => keep.then_some(Ok((key, value))),
+                        Err(err) => Some(Err(err.into())),
+                    },
                     Err(err) => Some(Err(err)),
                 },
             )
@@ -25,10 +27,10 @@ where
             .enumerate()
             .filter_map(
                 |(index, value)| match runner.run_index_value(ctx, index, &value) {
-                    Ok(v) => v
-                        .as_boolean()
-                        .expect("compiler guarantees boolean return type")
-                        .then_some(Ok(value)),
+                    Ok(v) => match v.try_boolean() {
+                        Ok(keep) => keep.then_some(Ok(value)),
+                        Err(err) => Some(Err(err.into())),
+                    },
                     Err(err) => Some(Err(err)),
                 },
             )
